@@ -270,9 +270,9 @@ def coq_eval_cases(prop, tag, imports, case_type, check_fn, terms, shard=1000, t
     """Evaluate `check_fn : case_type -> bool` on every term inside Coq; return indices with result false."""
     d = os.path.join(WORK, prop)
     os.makedirs(d, exist_ok=True)
-    for f in os.listdir(d):
-        if f.startswith(tag + "_"):
-            os.remove(os.path.join(d, f))
+    # file names carry the pid: two runs of the same property at the same time (a mutation experiment next to a normal run) must
+    # not overwrite each other's shards
+    tag = "%s_p%d" % (tag, os.getpid())
     paths = []
     for si in range(0, len(terms), shard):
         chunk = terms[si:si + shard]
